@@ -52,6 +52,8 @@ var c18Pool = []struct{ Name, Src string }{
 	{"f10", "package p\n\nimport fmt \"lib\"\n\nvar G = fmt.LibA + LibB\n"},
 	// import paths written as a raw string and with an escape sequence
 	{"f11", "package p\n\nimport `lib`\n\nimport f2 \"\\x66mt\"\n\nvar H = lib.LibB + f2.Sprint()\n"},
+	// two imports of one file bound to the same name: the first one stays in the file scope
+	{"f12", "package p\n\nimport q \"lib\"\n\nimport q \"other\"\n\nvar I = q.LibA\n"},
 }
 
 // c18CorpusTemplates: the canonical and the non-canonical corpus (sources that parse without errors).
@@ -73,7 +75,7 @@ func init() {
 		Level: "model_checking",
 		Rule: "graph part: 15 object-rich sources (recursion, mutual recursion, forward references, labels, type-switch/range/select variables, iota groups, type parameters, receivers, closures, shadowing, unresolved names) plus every corpus template, parsed with object resolution: " +
 			"the decorator's Objects/Scopes/Nodes maps must be a graph isomorphism (shared objects, kind, name, data, declaration link, scope nesting and membership), and restoring with Extras must rebuild an isomorphic graph; files resolved against each other decorated one at a time, and an isolated declaration, keep every declaration link; " +
-			"package part: every non-empty subset of <=4 files of an 11-file pool (cross-file references, redeclarations, undeclared names, dot/renamed/failing imports, raw-string and escaped import paths, a mismatching package clause, a shadowed universe name) x importer {nil, map} x universe {nil, small scope}: " +
+			"package part: every non-empty subset of <=4 files of a 12-file pool (cross-file references, redeclarations, two imports of one file bound to one name, undeclared names, dot/renamed/failing imports, raw-string and escaped import paths, a mismatching package clause, a shadowed universe name) x importer {nil, map} x universe {nil, small scope}: " +
 			"dst.NewPackage on the decorated files (Unresolved filled from the images) vs go/ast.NewPackage on the originals: same package scope, same error multiset (positions aside), same remaining unresolved names and same resolutions; state = source / (file set, importer, universe)",
 		Assumptions:      []string{"go/ast.NewPackage and go/parser's object resolution of this toolchain are the reference"},
 		CrashIsViolation: true,
@@ -578,11 +580,21 @@ func c18Package(cs c18Case, fail func(string, string, ...interface{}) core.Outco
 		}
 		for _, p := range pending {
 			ra, rd := "-", "-"
+			// an import object is identified by the path of the spec that declares it (two specs of one file may
+			// bind the same name; which one an identifier resolves to is not a map order)
 			if p.a.Obj != nil {
-				ra = fmt.Sprintf("%s:%v", p.a.Obj.Name, p.a.Obj.Kind)
+				at := ""
+				if is, ok := p.a.Obj.Decl.(*ast.ImportSpec); ok {
+					at = "@" + is.Path.Value
+				}
+				ra = fmt.Sprintf("%s%s:%v", p.a.Obj.Name, at, p.a.Obj.Kind)
 			}
 			if p.d.Obj != nil {
-				rd = fmt.Sprintf("%s:%v", p.d.Obj.Name, p.d.Obj.Kind)
+				at := ""
+				if is, ok := p.d.Obj.Decl.(*dst.ImportSpec); ok {
+					at = "@" + is.Path.Value
+				}
+				rd = fmt.Sprintf("%s%s:%v", p.d.Obj.Name, at, p.d.Obj.Kind)
 			}
 			a.resolv = append(a.resolv, p.a.Name+"->"+ra)
 			d.resolv = append(d.resolv, p.d.Name+"->"+rd)
